@@ -167,7 +167,7 @@ def run(ck):
         ptype = tname + 'Payload'
         if tname == 'Announce':
             calls = [j for j in dp.walk(cn['sub']) if dp.nodes[j].get('callee') == AN + 'parse_announce_payload']
-            ok = len(calls) == 1 and declref(dp, dp.call_args(calls[0])[0], data_d) is not None and \
+            ok = len(calls) == 1 and len(dp.call_args(calls[0])) == 3 and declref(dp, dp.call_args(calls[0])[0], data_d) is not None and \
                 declref(dp, dp.call_args(calls[0])[1], dp.params[2]['d']) is not None and const_value(dp, dp.call_args(calls[0])[2]) == 0
             ck.ob('C15.schema', 'C15.schema/Announce/v1-delegates', ok, dp.loc(ci),
                   'pre-PoW announces are parsed by parse_announce_payload(data, remaining, false)')
@@ -255,6 +255,8 @@ def run(ck):
     # ---- announce (cursor style) -------------------------------------------------------------------
     pa = P.fn(AN + 'parse_announce_payload')
     ck.touch(pa)
+    if len(pa.params) != 3:
+        raise AnalysisBroken('parse_announce_payload no longer takes (data, remaining, include_pow): the announce layout rules cannot be applied')
     d_d, inc_d = pa.params[0]['d'], pa.params[2]['d']
     cur = None
     for i in pa.walk():
